@@ -145,6 +145,7 @@ type Exec struct {
 	mods      map[*ssa.Function]*modSet
 	cond      []condDecl // conditional prelude facts (smt when ...)
 	closures  map[string]*closureInfo
+	selfVal   *Val // the function value of the call through a function type being processed
 	batchSeq  int
 	known     map[string]string // heap version "|" reference -> term stored there last
 	externTypes map[string][]types.Type
@@ -392,7 +393,7 @@ func (x *Exec) typeInv(t types.Type, term string, depth int) string {
 			return fmt.Sprintf("(>= %s 0)", term)
 		}
 	case *types.Slice, *types.Array:
-		return fmt.Sprintf("(and (<= 0 (s_len %s)) (<= (s_len %s) (s_cap %s)) (>= (s_base %s) 0) (=> (= (s_base %s) 0) (= (s_cap %s) 0)))", term, term, term, term, term, term)
+		return fmt.Sprintf("(and (<= 0 (s_len %s)) (<= (s_len %s) (s_cap %s)) (<= (s_cap %s) 9223372036854775807) (>= (s_base %s) 0) (=> (= (s_base %s) 0) (= (s_cap %s) 0)))", term, term, term, term, term, term, term)
 	case *types.Pointer, *types.Map, *types.Signature, *types.Chan:
 		return fmt.Sprintf("(>= %s 0)", term)
 	case *types.Interface:
